@@ -112,8 +112,12 @@ Record obs := Obs {
 Definition get_obs : dec obs :=
   r <- get_z ;; c <- get_opt get_seen ;; pr <- get_z ;; ps <- get_opt get_seen ;;
   l <- get_list get_logev ;; st <- get_storage ;; ret (Obs r c (pr, ps) l st).
-Definition step := (hop * oracle * obs)%type.
-Definition get_step : dec step := h <- get_hop ;; o <- get_oracle ;; b <- get_obs ;; ret (h, o, b).
+(** a step: operation, issuer answers, the Storage-call indices (within this step) that fail, observation *)
+Definition step := (hop * oracle * list nat * obs)%type.
+Definition get_step : dec step :=
+  h <- get_hop ;; o <- get_oracle ;; f <- get_list get_nat ;; b <- get_obs ;; ret (h, o, f, b).
+Definition step_plan (f : list nat) : plan :=
+  {| p_fail := fun n => existsb (Nat.eqb n) f; p_crash := None |}.
 
 (** * the model's observation of one step *)
 Definition seen_of (mc : mcert) : seen := (c_ser (m_c mc), m_k mc, [c_sub (m_c mc)]).
@@ -141,17 +145,17 @@ Definition obs_eqb (m o : obs) : bool :=
 Fixpoint replay6 (cfg : config) (sp : subject) (w : world) (steps : list step) : bool :=
   match steps with
   | [] => true
-  | (h, orc, o) :: r =>
-      let '(m, w') := model_step no_faults cfg sp w h orc in
-      obs_eqb m o && replay6 cfg sp w' r
+  | (h, orc, f, o) :: r =>
+      let '(m, w') := model_step (step_plan f) cfg sp w h orc in
+      obs_eqb m o && replay6 cfg sp (break_lock w') r     (* a failed Unlock: the Locker's staleness rule *)
   end.
 (** first disagreeing step and the model's view of it (for [explain]) *)
 Fixpoint first_diff (cfg : config) (sp : subject) (w : world) (steps : list step) (n : Z) : list Z :=
   match steps with
   | [] => [-1]
-  | (h, orc, o) :: r =>
-      let '(m, w') := model_step no_faults cfg sp w h orc in
-      if obs_eqb m o then first_diff cfg sp w' r (n + 1)
+  | (h, orc, f, o) :: r =>
+      let '(m, w') := model_step (step_plan f) cfg sp w h orc in
+      if obs_eqb m o then first_diff cfg sp (break_lock w') r (n + 1)
       else n :: ob_res m :: fst (ob_probe m) :: Z.of_nat (length (ob_st m)) :: Z.of_nat (length (ob_log m)) ::
            concat (map logev_enc (ob_log m))
   end.
@@ -183,17 +187,14 @@ Definition env_after (sp : subject) (st0 : storage) (h : hop) (env : list (N * b
 Definition revoked_state (env : list (N * bool)) (b : bundle) : option bool :=
   let c := b_cert b in if is_expired c then None else assoc_ser env (c_ser c).
 
-Definition spec_step (cfg : config) (sp : subject) (env : list (N * bool)) (st0 : storage) (h : hop) (o : obs) : bool :=
+(** the clauses that speak about states (storage before / after, what was cached, what a reload
+    returns) ... *)
+Definition spec_success (cfg : config) (sp : subject) (h : hop) (o : obs) : bool :=
   let st1 := ob_st o in
-  let iss := issued_ok (ob_log o) in
   let ok := (ob_res o =? 0) && is_op h in
   (* success_bundle_complete: some issuer directory holds key, chain, metadata; key matches leaf;
      metadata and certificate name the subject *)
   (negb ok || existsb (fun i => match bundle_at st1 i (s_save sp) with Some b => good_bundle sp b | None => false end) (issuers cfg))
-  (* ... and it is what the issuer just returned, with the key that was in the CSR *)
-  && (negb ok || forallb (fun ik => match bundle_at st1 (fst ik) (s_save sp) with
-                                    | Some ((_, k, c, _) as b) => good_bundle sp b && N.eqb k (snd ik) && negb (cert_in st0 (c_ser c))
-                                    | None => false end) iss)
   (* load_roundtrip + newest_of_issuers_loaded: loading with the requested spelling yields the
      newest stored bundle, bytes intact (key matches) *)
   && (negb ok || match newest_bundle st1 cfg (s_save sp) with
@@ -204,25 +205,9 @@ Definition spec_step (cfg : config) (sp : subject) (env : list (N * bool)) (st0 
                  | HManage => match newest_bundle st1 cfg (s_save sp), ob_cached o with
                               | Some b, Some sn => seen_eqb sn (seen_of_bundle b) && nlist_eqb (snd sn) [s_id sp]
                               | _, _ => false end
-                 | _ => true end)
-  (* fresh_key_unless_reuse / reuse_keeps_key / compromised_key_never_reused *)
-  && forallb (fun ik =>
-       let k := snd ik in
-       if negb (reuse cfg) then generated (ob_log o) k
-       else match h with
-            | HRenew _ => match newest_bundle st0 cfg (s_load sp) with Some (_, k0, _, _) => N.eqb k k0 | None => false end
-            | HObtain => match first_key st0 (issuers cfg) (s_pre sp) with Some k0 => N.eqb k k0 | None => generated (ob_log o) k end
-            | HManage =>
-                match newest_bundle st0 cfg (s_load sp) with
-                | Some ((_, k0, _, _) as b0) =>
-                    match revoked_state env b0 with
-                    | Some true => true    (* judged by the clause below *)
-                    | _ => N.eqb k k0
-                    end
-                | None => match first_key st0 (issuers cfg) (s_pre sp) with Some k0 => N.eqb k k0 | None => generated (ob_log o) k end
-                end
-            | _ => true
-            end) iss
+                 | _ => true end).
+Definition spec_state (cfg : config) (sp : subject) (env : list (N * bool)) (st0 : storage) (h : hop) (o : obs) : bool :=
+  spec_success cfg sp h o
   (* compromised_key_never_reused: manage succeeded on a certificate revoked for key compromise
      => what is served afterwards does not use that key *)
   && (match h with
@@ -238,6 +223,60 @@ Definition spec_step (cfg : config) (sp : subject) (env : list (N * bool)) (st0 
           end
       | _ => true
       end).
+(** ... and the clauses that speak about the issuer calls and key generations in the log *)
+Definition spec_issued (cfg : config) (sp : subject) (st0 : storage) (h : hop) (o : obs) : bool :=
+  let st1 := ob_st o in
+  let iss := issued_ok (ob_log o) in
+  let ok := (ob_res o =? 0) && is_op h in
+  (* what the issuer just returned is stored, with the key that was in the CSR *)
+  (negb ok || forallb (fun ik => match bundle_at st1 (fst ik) (s_save sp) with
+                                    | Some ((_, k, c, _) as b) => good_bundle sp b && N.eqb k (snd ik) && negb (cert_in st0 (c_ser c))
+                                    | None => false end) iss).
+Definition spec_log (cfg : config) (sp : subject) (env : list (N * bool)) (st0 : storage) (h : hop) (o : obs) : bool :=
+  let iss := issued_ok (ob_log o) in
+  spec_issued cfg sp st0 h o
+  (* fresh_key_unless_reuse / reuse_keeps_key *)
+  && forallb (fun ik =>
+       let k := snd ik in
+       if negb (reuse cfg) then generated (ob_log o) k
+       else match h with
+            | HRenew _ => match newest_bundle st0 cfg (s_load sp) with Some (_, k0, _, _) => N.eqb k k0 | None => false end
+            | HObtain => match first_key st0 (issuers cfg) (s_pre sp) with Some k0 => N.eqb k k0 | None => generated (ob_log o) k end
+            | HManage =>
+                match newest_bundle st0 cfg (s_load sp) with
+                | Some ((_, k0, _, _) as b0) =>
+                    match revoked_state env b0 with
+                    | Some true => negb (N.eqb k k0)   (* the replacement is never issued on the compromised key *)
+                    | _ => N.eqb k k0
+                    end
+                | None => match first_key st0 (issuers cfg) (s_pre sp) with Some k0 => N.eqb k k0 | None => generated (ob_log o) k end
+                end
+            | _ => true
+            end) iss.
+(** a step under injected storage errors: the property's first clause still binds - a REPORTED SUCCESS
+    leaves a complete, matching, reloadable bundle, what was issued is stored, and the cached certificate
+    names the identifier (a reported error is fine) - and so do the key clauses: fresh key / reused key,
+    and no issuance on a key revoked for compromise (the quarantine of that key may be what failed) *)
+Definition spec_faulted (cfg : config) (sp : subject) (env : list (N * bool)) (st0 : storage) (h : hop) (o : obs) : bool :=
+  spec_success cfg sp h o && spec_log cfg sp env st0 h o
+  (* after a key-compromise revocation nothing that is stored anew certifies the compromised key, even
+     when the quarantine of that key failed *)
+  && (match h with
+      | HManage =>
+          match newest_bundle st0 cfg (s_load sp) with
+          | Some ((_, k0, _, _) as b0) =>
+              match revoked_state env b0 with
+              | Some true => forallb (fun e => match snd e with
+                                               | VCrt c => cert_in st0 (c_ser c) || negb (N.eqb (c_pub c) k0)
+                                               | _ => true end) (ob_st o)
+              | _ => true
+              end
+          | None => true
+          end
+      | _ => true
+      end).
+Definition spec_step (cfg : config) (sp : subject) (env : list (N * bool)) (st0 : storage) (h : hop) (o : obs) : bool :=
+  spec_state cfg sp env st0 h o && spec_log cfg sp env st0 h o.
 
 (** most_recently_issued_loaded (Recency.v): as long as every step's issuer answers are dated after
     all stored certificates (a forward history: judged on the oracle = input and the
@@ -260,9 +299,13 @@ Definition spec_recent (cfg : config) (sp : subject) (h : hop) (o : obs) : bool 
 Fixpoint spec6 (cfg : config) (sp : subject) (env : list (N * bool)) (st0 : storage) (fwd : bool) (steps : list step) : bool :=
   match steps with
   | [] => true
-  | (h, orc, o) :: r =>
-      let fwd' := fwd && (negb (is_op h) || forwardb orc st0) in
-      spec_step cfg sp env st0 h o && (negb fwd' || spec_recent cfg sp h o) &&
+  | (h, orc, f, o) :: r =>
+      (* the recency clause is claimed for fault-free forward histories *)
+      let fwd' := fwd && (negb (is_op h) || forwardb orc st0) && (match f with [] => true | _ => false end) in
+      (match f with
+       | [] => spec_step cfg sp env st0 h o
+       | _ => spec_faulted cfg sp env st0 h o
+       end) && (negb fwd' || spec_recent cfg sp h o) &&
       spec6 cfg sp (env_after sp st0 h env) (ob_st o) fwd' r
   end.
 
@@ -331,20 +374,23 @@ Definition agree7 (c : case7) : bool :=
     is the one in the implementation's storage after the set-up) *)
 Definition env7 (c : case7) : list (N * bool) :=
   fold_left (fun env ho => env_after (c7_sp c) (c7_st0 c) (fst ho) env) (c7_setup c) [].
-Definition spec7 (c : case7) : bool :=
-  let o2 := c7_obs2 c in
+(** the recovery clause as a function of what was observed of the recovery: result, cached
+    certificate, storage, handshake twin *)
+Definition spec7_core (cfg : config) (sp : subject) (o2 : obs) (twin : bool) : bool :=
   (ob_res o2 =? 0) &&
   match ob_cached o2 with
   | Some (ser, k, names) =>
-      nlist_eqb names [s_id (c7_sp c)] &&
-      existsb (fun i => match bundle_at (ob_st o2) i (s_save (c7_sp c)) with
-                        | Some ((_, k', c', _) as b) => N.eqb (c_ser c') ser && N.eqb k' k && good_bundle (c7_sp c) b && negb (is_due c')
-                        | None => false end) (issuers (c7_cfg c))
+      nlist_eqb names [s_id sp] &&
+      existsb (fun i => match bundle_at (ob_st o2) i (s_save sp) with
+                        | Some ((_, k', c', _) as b) => N.eqb (c_ser c') ser && N.eqb k' k && good_bundle sp b && negb (is_due c')
+                        | None => false end) (issuers cfg)
   | None => false
-  end && c7_twin c
+  end && twin.
+Definition spec7 (c : case7) : bool :=
+  spec7_core (c7_cfg c) (c7_sp c) (c7_obs2 c) (c7_twin c)
   (* ... and the recovery itself obeys the clauses of C06 (complete matching bundle under the
      documented keys, reload, key reuse / freshness), judged from the storage the fault left behind *)
-  && spec_step (c7_cfg c) (c7_sp c) (env7 c) (ob_st (c7_obs1 c)) HManage o2.
+  && spec_step (c7_cfg c) (c7_sp c) (env7 c) (ob_st (c7_obs1 c)) HManage (c7_obs2 c).
 
 Definition check_line7 (l : list Z) : Z :=
   match decode get_case7 l with
